@@ -13,6 +13,7 @@ import (
 	"path/filepath"
 	"sort"
 	"strings"
+	"sync"
 	"testing"
 
 	"github.com/nuetzliches/hookaido/internal/verifkit"
@@ -67,6 +68,10 @@ func runM18(c M18Case) *mOutcome {
 	}
 	defer os.RemoveAll(dir)
 	// health endpoint of the "running instance"
+	var probeOnce sync.Once
+	var probeContent []byte
+	probed := false
+	probeCfg, probeLink := filepath.Join(dir, "Hookaidofile"), filepath.Join(dir, "probe-link")
 	port := 1
 	if c.Health != "down" {
 		ln, err := net.Listen("tcp", "127.0.0.1:0")
@@ -80,6 +85,15 @@ func runM18(c M18Case) *mOutcome {
 			want = "Bearer other"
 		}
 		srv := &http.Server{Handler: http.HandlerFunc(func(w http.ResponseWriter, r *http.Request) {
+			// a reader that opened the config file while the instance is being probed: a hard link
+			// keeps that very file; whatever happens later must not change what it holds
+			probeOnce.Do(func() {
+				if b, err := os.ReadFile(probeCfg); err == nil {
+					if os.Link(probeCfg, probeLink) == nil {
+						probeContent, probed = b, true
+					}
+				}
+			})
 			if r.Header.Get("Authorization") != want {
 				w.WriteHeader(401)
 				return
@@ -112,6 +126,14 @@ func runM18(c M18Case) *mOutcome {
 		return out
 	}
 	after, rerr := os.ReadFile(cfgPath)
+	if probed {
+		out.Labels = append(out.Labels, "probe-link-taken")
+		if now, err := os.ReadFile(probeLink); err != nil || !bytes.Equal(now, probeContent) {
+			out.Failure = mfail("C18", "file-written-in-place", "", "config_apply mode=%s content=%s health=%s: the file a reader had open during the health probe (%d bytes) was overwritten in place (now %d bytes, err %v): the replacement is not atomic",
+				c.Mode, c.Content, c.Health, len(probeContent), len(now), err)
+			return out
+		}
+	}
 	isErr, _ := res.Result["isError"].(bool)
 	sc, _ := res.Result["structuredContent"].(map[string]any)
 	ok, _ := sc["ok"].(bool)
